@@ -7,32 +7,55 @@ An edit of one of these Go functions changes the generated definition; the equal
 import SpatialId.Gen.Int64Fns
 import SpatialId.Model.AltKey
 import SpatialId.Lemmas.Core
+import Mathlib.Tactic.SplitIfs
 namespace SpatialId.Tie
 open SpatialId
 
 theorem id_pure {α} (a : α) : (pure a : Id α) = a := rfl
 
+/-- closes one case of a tie goal: both sides reduced to the same value, or the case is contradictory -/
+macro "tie_leaf" : tactic => `(tactic| first
+  | rfl
+  | omega
+  | (exfalso; omega)
+  | (simp_all [Outcome.ofOption, id_pure]; done)
+  | (simp_all [Outcome.ofOption, id_pure] <;> omega)
+  | (simp_all [Outcome.ofOption, id_pure, Bool.decide_and] <;> (first | omega | (constructor <;> intros <;> omega))))
+
+/-- the generic tie proof: case-split every `if`/`match` on both sides and close each case. It does not depend on the order of
+branches, on how conditions are spelled or on the names of locals, so a behaviour-preserving rewrite of the Go function keeps
+the equality provable -/
+macro "tie_auto" : tactic => `(tactic| first
+  | rfl
+  | (split_ifs <;> tie_leaf)
+  | ((repeat' split) <;> tie_leaf)
+  | (simp [id_pure, Bool.decide_and, Outcome.ofOption] <;> tie_leaf))
+
 theorem CalculateArithmeticShift_eq (i s : Int) : Gen.CalculateArithmeticShift i s = arithShift i s := by
   unfold Gen.CalculateArithmeticShift arithShift
-  simp only [Id.run, id_pure]
+  (try simp only [Id.run, id_pure]) <;> tie_auto
 
 theorem CheckZoom_eq (z : Int) : Gen.CheckZoom z = checkZoom z := by
   unfold Gen.CheckZoom checkZoom
-  simp [Id.run, id_pure, Bool.decide_and]
+  first
+  | (simp [Id.run, id_pure, Bool.decide_and]; done)
+  | ((try simp only [Id.run, id_pure]) <;> tie_auto)
 
 theorem quadkeyCheckZoom_eq (h v : Int) : Gen.quadkeyCheckZoom h v = qkCheckZoom h v := by
   unfold Gen.quadkeyCheckZoom qkCheckZoom
-  simp [Id.run, id_pure, Bool.decide_and]
+  first
+  | (simp [Id.run, id_pure, Bool.decide_and]; done)
+  | ((try simp only [Id.run, id_pure]) <;> tie_auto)
 
 theorem extendedSpatialIDCheckZoom_eq (h v : Int) : Gen.extendedSpatialIDCheckZoom h v = extCheckZoom h v := by
   unfold Gen.extendedSpatialIDCheckZoom extCheckZoom
-  simp [Id.run, id_pure, Bool.decide_and]
+  first
+  | (simp [Id.run, id_pure, Bool.decide_and]; done)
+  | ((try simp only [Id.run, id_pure]) <;> tie_auto)
 
 theorem validateIndexExists_eq (i z : Int) (neg : Bool) : Gen.validateIndexExists i z neg = validateIndex i z neg := by
   unfold Gen.validateIndexExists validateIndex
   simp only [Id.run, id_pure, CalculateArithmeticShift_eq]
-  cases neg
-  · by_cases h : i > arithShift 1 z - 1 ∨ i < 0 <;> simp [h, id_pure] <;> omega
-  · by_cases h : i > arithShift 1 z - 1 ∨ i < -arithShift 1 z <;> simp [h, id_pure] <;> omega
+  cases neg <;> simp only [Bool.false_eq_true, if_true, if_false, id_pure] <;> tie_auto
 
 end SpatialId.Tie
